@@ -334,4 +334,13 @@ InterleavingIndependent ==
            THEN "error"
            ELSE IF call[p].entry = "compile" THEN "handle" ELSE "report")
 
+\* no call ever waits for another one: a call that has been made and has not
+\* returned can take its next step in every reachable state, wherever the
+\* other calls are (for the implementation: also while another call rests in
+\* the dispatch of an event its listener has not taken yet -- bound by the
+\* "stall" replay of lib/c10.py, which parks call A at each of its events
+\* and runs call B to completion)
+StepsNeverWaitForOthers ==
+  \A p \in Procs : pc[p] \notin {"idle", "panicked"} => ENABLED ProcStep(p)
+
 =============================================================================
